@@ -18,6 +18,19 @@ Oracle  : r = t.apply(shape) is a new object of the same class; observe(r) equal
           they were, also after t.apply(shape.points) on the shape's own array; writing into every buffer
           of the result leaves observe(shape) unchanged.  A point outside the piecewise-affine domain
           (decided by the model, margin 1e-9) must give TriangleContainmentError and leave everything intact.
+
+Second machine (roots ("session", transform letter, dims, argument set)) - refused calls on ONE live transform:
+State   : one live transform t and live argument shapes A, B (valid), W (other dimensionality), and for the
+          piecewise-affine letters O (a point outside the domain), LO (a landmark outside); the model state
+          is the last call made on t (what a hidden memo could remember).  No observation ever calls t.
+Ops     : ("v", arg, batch) a valid t.apply(arg); ("r", kind, arg, batch) a call the unchanged tree refuses:
+          kind out / lm-out (TriangleContainmentError), wrong-dims (ValueError documented for thin plate
+          splines, any exception elsewhere), bad-batch (batch_size=0).  Depth 2 = every ordered pair.
+Oracle  : refused call: (a) raises (documented type where there is one); (b) observe of every argument and the
+          probe-free observation of t are what they were; (c) the immediate retry is refused in the same way
+          (same type, same out-of-domain mask); (d) every valid call, whatever came before on this very object,
+          returns exactly what an identically built transform that never saw anything returns, and agrees
+          with the numpy model.
 """
 import collections
 import math
@@ -221,6 +234,31 @@ def is_pwa_letter(name):
     return name in ("PythonPWA", "CachedPWA", "PiecewiseAffine")
 
 
+def obs_quiet(t):
+    """observation of a transform that never calls it (a call would overwrite what a hidden memo remembers)."""
+    d = observe(t, probe=False)
+    if type(t).__name__ == "WithDims":
+        d["dims"] = repr(t.dims)
+    return d
+
+
+# argument classes of a session: (class of A and of the out-of-domain letter O / wrong-dims letter W, class of B and LO)
+ARGSETS = [
+    ("PointCloud", "TexturedTriMesh"),
+    ("TriMesh", "PointTree"),
+    ("ColouredTriMesh", "LabelledPointUndirectedGraph"),
+    ("PointUndirectedGraph", "PointDirectedGraph"),
+]
+REFUSAL_KINDS = ("out", "lm-out", "wrong-dims", "bad-batch")
+
+
+def call(t, x, **kw):
+    try:
+        return t.apply(x, **kw), None
+    except Exception as e:  # noqa - refusals of every kind are compared with the model by the caller
+        return None, e
+
+
 # =================================================================================================
 # expected observation
 # =================================================================================================
@@ -252,7 +290,8 @@ class C02(Check):
     title = "transforming a shape moves points and landmarks as one and mutates nothing"
 
     def depth(self):
-        return 1 if self.tier == "quick" else 2
+        # the cross product is explored to depth 1 (quick) / 2 (thorough) - see ops(); sessions always to depth 2
+        return 2
 
     # ------------------------------------------------------------------ roots
     def roots(self):
@@ -268,22 +307,138 @@ class C02(Check):
             for d in (2, 3):
                 out.append((cls, d, 1, "int"))
                 out.append((cls, d, 1, "f32"))
+        return out + self.session_roots()
+
+    def session_roots(self):
+        out = []
+        for d in (2, 3):
+            for spec in transform_letters(d):
+                n_sets = len(ARGSETS) if (self.tier == "thorough" or is_pwa_letter(spec[0])) else 1
+                out.extend(("session", spec[0], d, i) for i in range(n_sets))
         return out
 
     def build(self, root):
-        return {"shape": make_shape(root, self.seed), "variant": root[3]}
+        if root[0] == "session":
+            return self.build_session(root)
+        return {"machine": "cross", "shape": make_shape(root, self.seed), "variant": root[3]}
+
+    def build_session(self, root):
+        name, d, (cls_a, cls_b) = root[1], int(root[2]), ARGSETS[root[3]]
+        args = collections.OrderedDict()
+        args["A"] = make_shape((cls_a, d, 2, "plain"), self.seed)
+        args["B"] = make_shape((cls_b, d, 1, "plain"), self.seed)
+        args["W"] = make_shape((cls_a, 5 - d, 1, "plain"), self.seed)
+        if is_pwa_letter(name):
+            args["O"] = make_shape((cls_a, 2, 2, "out"), self.seed)
+            args["LO"] = make_shape((cls_b, 2, 2, "lm-out"), self.seed)
+        return {
+            "machine": "session",
+            "spec": (name, d),
+            "t": make_transform((name, d), self.seed),
+            "args": args,
+            "obs_args": {k: observe(v) for k, v in args.items()},
+            "last": None,
+        }
 
     def canon(self, st):
+        if st["machine"] == "session":
+            return (obs_key(obs_quiet(st["t"])), st["last"])
         return obs_key(observe(st["shape"]))
 
     def ops(self, st, level):
+        if st["machine"] == "session":
+            name = st["spec"][0]
+            out = [("v", a, b) for b in (0, 2) for a in ("A", "B")]
+            if not name.startswith("WithDims"):  # WithDims is not dimension specific: nothing to refuse
+                out.append(("r", "wrong-dims", "W", 0))
+            out.append(("r", "bad-batch", "A", 0))
+            if is_pwa_letter(name):
+                out += [("r", k, a, b) for b in (0, 2) for k, a in (("out", "O"), ("lm-out", "LO"))]
+            return out
+        if level >= (1 if self.tier == "quick" else 2):
+            return []
         d = st["shape"].n_dims
         return [spec + (b,) for b in (0, 2) for spec in transform_letters(d)]
+
+    # ------------------------------------------------------------------ session step
+    def apply_session(self, st, op, verify):
+        from menpo.transform.piecewiseaffine import TriangleContainmentError
+
+        t, name = st["t"], st["spec"][0]
+        if op[0] == "v":
+            kind, aid, batch = "valid", op[1], (op[2] or None)
+            kw = {"batch_size": batch}
+        else:
+            kind, aid = op[1], op[2]
+            kw = {"batch_size": 0 if kind == "bad-batch" else (op[3] or None)}
+        x = st["args"][aid]
+        before = st["last"]
+        st["last"] = op
+        if not verify:
+            call(t, x, **kw)
+            if kind != "valid":
+                call(t, x, **kw)
+            return []
+
+        fails = []
+        ctx = "%s, %s call on %s %s, previous call on this transform: %r" % (name, kind, type(x).__name__, kw, before)
+        twin = make_transform(st["spec"], self.seed)
+        seq = ("first" if before is None else "after-valid" if before[0] == "v" else "after-refusal")
+
+        def untouched():
+            for k, v in st["args"].items():
+                d1 = obs_diff(st["obs_args"][k], observe(v))
+                if d1:
+                    fails.append(Failure(name, "call-modified-argument" if kind == "valid" else "refused-call-modified-argument", "%s: argument %s: %s" % (ctx, k, d1)))
+            d2 = obs_diff(obs_quiet(twin), obs_quiet(t))
+            if d2:
+                fails.append(Failure(name, "transform-modified" if kind == "valid" else "refused-call-modified-transform", "%s: %s" % (ctx, d2)))
+
+        if kind == "valid":
+            r, exc = call(t, x, **kw)
+            self.note("session:valid-%s" % seq)
+            if exc is not None:
+                fails.append(Failure(name, "valid-call-raised-after-history", "%s: raised %r" % (ctx, exc)))
+                return fails
+            r2 = twin.apply(x, **kw)
+            d = obs_diff(observe(r2), observe(r))
+            if d:
+                fails.append(Failure(name, "result-depends-on-call-history", "%s: differs from the result of a transform that never saw another call at %s" % (ctx, d)))
+            for (p, got), (_, src) in zip(point_arrays(r), point_arrays(x)):
+                y, cond = ref_map(twin, src)
+                tol = REF_TOL * (1.0 + np.abs(y).max()) * max(1.0, cond)
+                if got.shape != y.shape or not np.abs(got - y).max() <= tol:
+                    fails.append(Failure(name, "map-value", "%s: %s is off the model (tolerance %.3g)" % (ctx, p, tol)))
+            untouched()
+            return fails
+
+        # ---- a call that must be refused, and its immediate retry
+        r1, e1 = call(t, x, **kw)
+        r2, e2 = call(t, x, **kw)
+        self.note("session:refusal-%s" % seq)
+        documented = TriangleContainmentError if kind in ("out", "lm-out") else ValueError if "TPS" in name or name == "ThinPlateSplines" else Exception
+        if e1 is None:
+            fails.append(Failure(name, "refused-call-accepted", "%s: returned %s" % (ctx, type(r1).__name__)))
+        elif not isinstance(e1, documented):
+            fails.append(Failure(name, "refused-call-wrong-exception", "%s: expected %s, raised %r" % (ctx, documented.__name__, e1)))
+        else:
+            self.note("refusal:%s:%s" % (kind, type(e1).__name__))
+        if e1 is not None:
+            if e2 is None:
+                fails.append(Failure(name, "retry-of-refused-call-accepted", "%s: the same call again returned %s" % (ctx, type(r2).__name__)))
+            elif type(e2) is not type(e1):
+                fails.append(Failure(name, "retry-of-refused-call-differs", "%s: first %r, then %r" % (ctx, e1, e2)))
+            elif isinstance(e1, TriangleContainmentError) and not np.array_equal(e1.points_outside_source_domain, e2.points_outside_source_domain):
+                fails.append(Failure(name, "retry-of-refused-call-differs", "%s: out-of-domain mask %r, then %r" % (ctx, e1.points_outside_source_domain, e2.points_outside_source_domain)))
+        untouched()
+        return fails
 
     # ------------------------------------------------------------------ step
     def apply(self, st, op, verify=True):
         from menpo.transform.piecewiseaffine import TriangleContainmentError
 
+        if st["machine"] == "session":
+            return self.apply_session(st, op, verify)
         spec, batch = tuple(op[:-1]), (op[-1] or None)
         name = spec[0]
         shape = st["shape"]
@@ -433,6 +588,12 @@ class C02(Check):
         for n in ["groups:0", "groups:1", "groups:2", "dims:3->2", "dims:3->1", "dims:2->2", "dims:3->3", "batch:2", "batch:none"] + ["variant:%s" % v for v in VARIANTS]:
             if not notes.get(n):
                 out.append("outcome %s never produced" % n)
+        for kind in REFUSAL_KINDS:
+            if not any(k.startswith("refusal:%s:" % kind) for k in notes):
+                out.append("no call of refusal kind %s was ever refused" % kind)
+        for n in ("session:valid-first", "session:valid-after-valid", "session:valid-after-refusal", "session:refusal-first", "session:refusal-after-valid", "session:refusal-after-refusal"):
+            if not notes.get(n):
+                out.append("outcome %s never produced" % n)
         if not any(k.startswith("write-through:") for k in notes):
             out.append("write-through test never ran")
         if not any(k.startswith("ref-error/tolerance:") for k in notes):
@@ -442,7 +603,8 @@ class C02(Check):
     def rule(self):
         return (
             "every shape letter (class x dims x landmark groups x variant) crossed with every transform letter "
-            "(x batch_size none / 2), breadth first; thorough applies every letter again to every distinct result"
+            "(x batch_size none / 2), breadth first; thorough applies every letter again to every distinct result; "
+            "plus, per transform letter, every ordered pair of valid / refused calls on one live transform object"
         )
 
     def alphabet_sizes(self):
@@ -453,6 +615,9 @@ class C02(Check):
             "transform_letters_2d": len(transform_letters(2)),
             "transform_letters_3d": len(transform_letters(3)),
             "batch_sizes": ["none", 2],
+            "session_roots": len(self.session_roots()),
+            "refusal_kinds": list(REFUSAL_KINDS),
+            "session_argument_sets": len(ARGSETS),
             "ref_tolerance": REF_TOL,
             "pwa_border_margin": PWA_EPS,
             "general_position": {"min_dist": L.MIN_DIST, "min_area": L.MIN_AREA},
@@ -464,6 +629,7 @@ class C02(Check):
             "shapes have 5 points, landmark groups 5 points, at most 2 groups and one level of nesting",
             "1-D results (WithDims with a single number) are not transformed again",
             "2-D shape letters are rescaled into the piecewise-affine source domain; out-of-domain behaviour is explored by the out / lm-out variants and at depth 2",
+            "sessions: sequences of at most 2 calls on one transform object (a refused call counts with its immediate retry); refusal kinds out-of-domain point / landmark, wrong dimensionality, batch_size=0; WithDims letters have no wrong-dimensionality refusal",
             "the transform's 'before' observation is taken on an identically constructed twin so that the call under test runs on a pristine transform",
         ]
 
